@@ -229,6 +229,22 @@ func init() {
 		}
 		sort.Strings(ks)
 		fmt.Printf("  C19: configurations=%d shedding=%d\n", evals, len(distinct))
+		// "only when rebalancing is enabled": the periodic task is started by
+		// server.go only for a non-zero threshold. Real node, 4 upstream
+		// connections, a maximally imbalanced view (one other node with none).
+		for _, th := range []float64{0, 0.5} {
+			closed, err := rebalanceEnabledCase(th)
+			switch {
+			case err != nil:
+				evid.Fatal("rebalance node case: %v", err)
+			case th == 0 && closed > 0:
+				run.Violation("C19", "shed-while-disabled", fmt.Sprintf("threshold 0 (rebalancing disabled) but %d of 4 connections were closed within 3.5s", closed), map[string]any{"engine": "E3-C19", "node_case_threshold": th})
+			case th != 0 && closed == 0:
+				run.Violation("C19", "enabled-rebalancing-never-sheds", "threshold 0.5 with 4 local connections and an idle peer: nothing was shed within 15s", map[string]any{"engine": "E3-C19", "node_case_threshold": th})
+			}
+			evals++
+		}
+		run.Set("evaluations", evals)
 		return run.Finish()
 	})
 	replayers["E3-C19"] = func(path string) int {
